@@ -38,7 +38,8 @@ type SOp struct {
 }
 
 var stableKeys = func() [][]byte {
-	ks := [][]byte{[]byte("CurrentTerm"), []byte("LastVoteTerm"), []byte("LastVoteCand"), {0}, {0, 0, 1}, []byte("k\x00z"), bytes.Repeat([]byte{0xff}, 40), []byte("a")}
+	// "m", "wal-meta" and "stable" are the names the meta DB itself uses for its record and buckets
+	ks := [][]byte{[]byte("CurrentTerm"), []byte("LastVoteTerm"), []byte("LastVoteCand"), {0}, {0, 0, 1}, []byte("k\x00z"), bytes.Repeat([]byte{0xff}, 40), []byte("a"), []byte("m"), []byte("wal-meta"), []byte("stable")}
 	ks = append(ks, bytes.Repeat([]byte("K"), 32768)) // bolt's maximum key size
 	return ks
 }()
